@@ -469,6 +469,7 @@ type argWalker struct {
 	aliases   map[types.Object]bool // argLen := len(args)
 	rangeVars map[types.Object]bool // for _, arg := range args
 	seen      map[string]int
+	msgVars   map[types.Object]bool // locals computed from args (msg := args[2]…)
 }
 
 func (w *argWalker) isArgs(e ast.Expr) bool {
@@ -602,6 +603,21 @@ func (w *argWalker) stmt(st ast.Stmt, lo int) int {
 		for _, lhs := range x.Lhs {
 			w.exprs(lhs, lo)
 		}
+		if len(x.Lhs) == 1 && len(x.Rhs) == 1 {
+			fromArgs := false
+			ast.Inspect(x.Rhs[0], func(n2 ast.Node) bool {
+				if id, ok := n2.(*ast.Ident); ok && w.info.ObjectOf(id) == w.args {
+					fromArgs = true
+				}
+				return true
+			})
+			if id, ok := x.Lhs[0].(*ast.Ident); ok && fromArgs {
+				if w.msgVars == nil {
+					w.msgVars = map[types.Object]bool{}
+				}
+				w.msgVars[w.info.ObjectOf(id)] = true
+			}
+		}
 		if len(x.Lhs) == 1 && len(x.Rhs) == 1 && w.lenOfArgs(x.Rhs[0]) {
 			if id, ok := x.Lhs[0].(*ast.Ident); ok {
 				w.aliases[w.info.ObjectOf(id)] = true
@@ -697,6 +713,28 @@ func (w *argWalker) exprs(e ast.Expr, lo int) {
 		case *ast.TypeAssertExpr:
 			w.assertion(x)
 		case *ast.CallExpr:
+			// `test want got "message"`: a message that comes without operands is printed as it is; only a message
+			// followed by operands is a format. A call that formats with a format taken from the arguments is
+			// therefore made only where at least one operand behind the message (len(args) ≥ 4) is established.
+			if w.ent.name == "test" {
+				wholeArgs := len(x.Args) == 1 && w.isArgs(x.Args[0]) // a helper that gets the whole list is walked with the current bound below
+				if fn := calleeFunc(w.info, x); fn != nil && fn.Pkg() == w.pkg.Types && formatsWithUserString(w.p, w.pkg)[fn] && !wholeArgs {
+					mentions := false
+					for _, a := range x.Args {
+						ast.Inspect(a, func(n2 ast.Node) bool {
+							if id, ok := n2.(*ast.Ident); ok && (w.info.ObjectOf(id) == w.args || w.msgVars[w.info.ObjectOf(id)]) {
+								mentions = true
+							}
+							return true
+						})
+					}
+					if mentions {
+						c := w.construct("message-is-a-format-only-with-operands")
+						w.r.Check(lo >= 4, c, w.p.Rel(x.Pos()), fmt.Sprintf("the message is used as a format where len(args) ≥ %d is established", lo),
+							fmt.Sprintf("the message of test is handed to %s as a format where only len(args) ≥ %d is established: `test 1 2 \"100%% full\"` (a message without operands, which the documentation says is printed as it is) is reported as `100%%!f(MISSING)ull`", fn.Name(), lo))
+					}
+				}
+			}
 			// helper taking the args slice (testMessage(args)): analyse with the current bound
 			if fn := calleeFunc(w.info, x); fn != nil && fn.Pkg() == w.pkg.Types && len(x.Args) == 1 && w.isArgs(x.Args[0]) {
 				if fd := FindFunc(w.pkg, fn.Name()); fd != nil && fd.Decl.Type.Params != nil && len(fd.Decl.Type.Params.List) == 1 && len(fd.Decl.Type.Params.List[0].Names) == 1 {
@@ -1057,4 +1095,51 @@ func eventParamCount(pkg *packages.Package, name string) int {
 		return true
 	})
 	return count
+}
+
+var fmtUserCache = map[*packages.Package]map[*types.Func]bool{}
+
+// formatsWithUserString: package functions that (through at most two further package functions) call a fmt
+// formatting function with a format that is not a constant.
+func formatsWithUserString(p *Program, pkg *packages.Package) map[*types.Func]bool {
+	if m, ok := fmtUserCache[pkg]; ok {
+		return m
+	}
+	m := map[*types.Func]bool{}
+	fmtUserCache[pkg] = m
+	for round := 0; round < 3; round++ {
+		for _, fd := range Funcs(pkg) {
+			if m[fd.Obj] {
+				continue
+			}
+			ast.Inspect(fd.Decl.Body, func(n ast.Node) bool {
+				call, ok := n.(*ast.CallExpr)
+				if !ok {
+					return true
+				}
+				cf := calleeFunc(pkg.TypesInfo, call)
+				if cf == nil || cf.Pkg() == nil {
+					return true
+				}
+				if cf.Pkg().Path() == "fmt" {
+					idx := -1
+					switch cf.Name() {
+					case "Sprintf", "Printf", "Errorf":
+						idx = 0
+					case "Fprintf":
+						idx = 1
+					}
+					if idx >= 0 && idx < len(call.Args) {
+						if _, isConst := constString(pkg.TypesInfo, call.Args[idx]); !isConst {
+							m[fd.Obj] = true
+						}
+					}
+				} else if cf.Pkg() == pkg.Types && m[cf] {
+					m[fd.Obj] = true
+				}
+				return true
+			})
+		}
+	}
+	return m
 }
